@@ -512,13 +512,350 @@ Proof.
   exists t, th. split; [exact H | split; [exact Ho | eapply owner_enabled; eauto]].
 Qed.
 
+(* ---- tickets and their producers ---- *)
+Lemma install_other : forall s1 t th' sp t0 x, t0 <> t -> nth_error (threads s1) t0 = Some x ->
+  nth_error (threads (install s1 t th' sp)) t0 = Some x.
+Proof.
+  intros. unfold install; simpl.
+  assert (L : (t0 < length (threads s1))%nat) by (apply nth_error_Some; congruence).
+  rewrite nth_error_app1 by (rewrite length_upd_nth; exact L).
+  rewrite nth_error_upd_nth. destruct (Nat.eqb t t0) eqn:E; [apply Nat.eqb_eq in E; congruence | assumption].
+Qed.
+
+(* an unsignalled ticket is held by its producer, which is publishing or about to signal exactly that ticket *)
+Definition UnsigInv (s : st) : Prop := forall k c, nth_error (cells s) k = Some c -> csig c = false ->
+  exists th, nth_error (threads s) (cown c) = Some th /\ (tpc th = PPublish k \/ tpc th = PSignal (Some k)).
+
+Ltac keep_witness IH Hn Hsig Hth t :=
+  let th0 := fresh "th0" in let H0 := fresh "H0" in let Hp0 := fresh "Hp0" in let E := fresh "E" in
+  destruct (IH _ _ Hn Hsig) as (th0 & H0 & Hp0);
+  match type of H0 with nth_error _ ?o = _ =>
+    destruct (Nat.eq_dec o t) as [E|E];
+    [ rewrite E in H0; rewrite Hth in H0; inversion H0; subst th0; destruct Hp0; congruence
+    | exists th0; split; [apply install_other; auto | exact Hp0] ]
+  end.
+
+Lemma unsig_step : forall s t s', UnsigInv s -> step s t = Some s' -> UnsigInv s'.
+Proof.
+  intros s t s' IH Hs k c Hn Hsig. step_setup Hs s t.
+  step_cases Hst; simpl in Hn; try (keep_witness IH Hn Hsig Hth t).
+  - (* ticket *)
+    apply nth_error_snoc in Hn. destruct Hn as [Hn|[-> ->]].
+    + keep_witness IH Hn Hsig Hth t.
+    + simpl. eexists. split; [eapply install_self; eauto | left; reflexivity].
+  - (* publish *)
+    rewrite nth_error_upd_nth in Hn. destruct (Nat.eqb tk k) eqn:E.
+    + apply Nat.eqb_eq in E; subst. destruct (nth_error (cells s) k) as [c0|] eqn:E0; simpl in Hn; [|discriminate].
+      inversion Hn; subst; simpl in *. destruct (IH _ _ E0 Hsig) as (th0 & H0 & Hp0).
+      destruct (Nat.eq_dec (cown c0) t) as [E|E].
+      * rewrite E. eexists. split; [eapply install_self; eauto | right; reflexivity].
+      * exists th0. split; [apply install_other; auto|]. exact Hp0.
+    + destruct (IH _ _ Hn Hsig) as (th0 & H0 & Hp0). destruct (Nat.eq_dec (cown c) t) as [E1|E1].
+      * rewrite E1 in H0. rewrite Hth in H0. inversion H0; subst th0.
+        destruct Hp0 as [P|P]; rewrite P in Heqp; inversion Heqp; subst. rewrite Nat.eqb_refl in E. discriminate.
+      * exists th0. split; [apply install_other; auto | exact Hp0].
+  - (* signal early *)
+    rewrite nth_error_upd_nth in Hn. destruct (Nat.eqb n k) eqn:E.
+    + destruct (nth_error (cells s) n); simpl in Hn; [|discriminate]. inversion Hn; subst. simpl in Hsig. discriminate.
+    + destruct (IH _ _ Hn Hsig) as (th0 & H0 & Hp0). destruct (Nat.eq_dec (cown c) t) as [E1|E1].
+      * rewrite E1 in H0. rewrite Hth in H0. inversion H0; subst th0.
+        destruct Hp0 as [P|P]; rewrite P in Heqp; inversion Heqp; subst. rewrite Nat.eqb_refl in E. discriminate.
+      * exists th0. split; [apply install_other; auto | exact Hp0].
+  - (* signal, launches *)
+    rewrite nth_error_upd_nth in Hn. destruct (Nat.eqb n k) eqn:E.
+    + destruct (nth_error (cells s) n); simpl in Hn; [|discriminate]. inversion Hn; subst. simpl in Hsig. discriminate.
+    + destruct (IH _ _ Hn Hsig) as (th0 & H0 & Hp0). destruct (Nat.eq_dec (cown c) t) as [E1|E1].
+      * rewrite E1 in H0. rewrite Hth in H0. inversion H0; subst th0.
+        destruct Hp0 as [P|P]; rewrite P in Heqp; inversion Heqp; subst. rewrite Nat.eqb_refl in E. discriminate.
+      * exists th0. split; [apply install_other; auto | exact Hp0].
+Qed.
+
+(* tickets popped but not yet released are in the hands of a consumer inside the consume function *)
+Definition ConsInv (s : st) : Prop :=
+  ndel s = npop s \/ exists t th, nth_error (threads s) t = Some th /\ tpc th = CConsume.
+
+Lemma cons_step : forall s t s', ConsInv s -> step s t = Some s' -> ConsInv s'.
+Proof.
+  intros s t s' IH Hs. step_setup Hs s t. unfold ConsInv in *.
+  destruct IH as [E|(t1 & th1 & H1 & P1)].
+  - step_cases Hst; simpl; auto.
+    right. exists t. eexists. split; [eapply install_self; eauto | reflexivity].
+  - destruct (Nat.eq_dec t1 t) as [->|N].
+    + rewrite Hth in H1. inversion H1; subst th1. step_cases Hst; try congruence. simpl. auto.
+    + right. exists t1, th1. split; [|exact P1]. apply install_other; auto. rewrite Hthr. exact H1.
+Qed.
+
+(* every ticket was issued to an execute() op of its producer, which has reached or passed that op *)
+Definition CellInv (s : st) : Prop := forall k c, nth_error (cells s) k = Some c ->
+  exists th, nth_error (threads s) (cown c) = Some th /\ nth_error (prog th) (cseq c) = Some OExec /\
+             (cseq c <= opi th)%nat /\ (cseq c = opi th -> tpc th <> Idle).
+
+Lemma cell_origin : forall s t th s1 th' sp, step_thread s t th = Some (s1, th', sp) ->
+  forall k c, nth_error (cells s1) k = Some c ->
+  (exists c0, nth_error (cells s) k = Some c0 /\ cown c0 = cown c /\ cseq c0 = cseq c) \/
+  (k = length (cells s) /\ tpc th = Idle /\ nth_error (prog th) (opi th) = Some OExec /\ cown c = t /\ cseq c = opi th).
+Proof.
+  intros s t th s1 th' sp Hst k c Hn.
+  step_cases Hst; simpl in Hn; eauto;
+    try (rewrite nth_error_upd_nth in Hn;
+         match type of Hn with (if ?b then _ else _) = _ => destruct b eqn:Eb end;
+         [ apply Nat.eqb_eq in Eb; subst;
+           match type of Hn with option_map _ ?o = _ => destruct o as [c0|] eqn:E0 end; simpl in Hn; [|discriminate];
+           inversion Hn; subst; left; exists c0; simpl; auto
+         | eauto ]).
+  apply nth_error_snoc in Hn. destruct Hn as [Hn|[-> ->]]; [eauto | right; simpl; auto].
+Qed.
+
+(* what a step does to the stepping thread's op index and pc *)
+Lemma step_thread_progress : forall s t th s1 th' sp, step_thread s t th = Some (s1, th', sp) ->
+  prog th' = prog th /\
+  ((opi th' = opi th /\ (tpc th' <> Idle \/ nth_error (prog th) (opi th) <> Some OExec)) \/
+   (opi th' = S (opi th) /\ tpc th' = Idle /\ (tpc th <> Idle \/ nth_error (prog th) (opi th) <> Some OExec))).
+Proof.
+  intros s t th s1 th' sp Hst.
+  step_cases Hst; simpl; split; try reflexivity;
+    try (left; split; [reflexivity | left; discriminate]);
+    try (right; split; [reflexivity | split; [reflexivity | left; congruence]]);
+    try (right; split; [reflexivity | split; [reflexivity | right; congruence]]);
+    try (left; split; [reflexivity | right; congruence]).
+Qed.
+
+Lemma spawned_threads : forall s t th s1 th' sp, step_thread s t th = Some (s1, th', sp) ->
+  sp = [] \/ sp = [consumer_thread].
+Proof. intros s t th s1 th' sp Hst. step_cases Hst; auto. Qed.
+
+Lemma cell_step : forall s t s', CellInv s -> step s t = Some s' -> CellInv s'.
+Proof.
+  intros s t s' IH Hs k c Hn. step_setup Hs s t. unfold install in Hn; simpl in Hn.
+  destruct (step_thread_progress _ _ _ _ _ _ Hst) as [Pp Po].
+  destruct (cell_origin _ _ _ _ _ _ Hst _ _ Hn) as [(c0 & E0 & Eo & Es)|(-> & Pi & Px & Eo & Es)].
+  - destruct (IH _ _ E0) as (th0 & H0 & Hx & Hle & Hid). rewrite Eo, Es in *.
+    destruct (Nat.eq_dec (cown c) t) as [E|E].
+    + rewrite E in *. rewrite Hth in H0. inversion H0; subst th0.
+      exists th'. split; [eapply install_self; eauto|]. rewrite Pp. split; [exact Hx|].
+      destruct Po as [[Q1 Q2]|[Q1 [_ Q2]]]; rewrite Q1.
+      * split; [exact Hle|]. intro Ec. destruct Q2 as [Q2|Q2]; [exact Q2 | rewrite Ec in Hx; contradiction].
+      * split; [lia | intro; lia].
+    + exists th0. split; [apply install_other; auto; rewrite Hthr; exact H0 | auto].
+  - rewrite Eo, Es. exists th'. split; [eapply install_self; eauto|]. rewrite Pp. split; [exact Px|].
+    destruct Po as [[Q1 Q2]|[Q1 [_ Q2]]]; rewrite Q1.
+    + split; [lia|]. intros _. destruct Q2 as [Q2|Q2]; [exact Q2 | contradiction].
+    + destruct Q2 as [Q2|Q2]; contradiction.
+Qed.
+
+(* tickets of one producer carry increasing op indices (submission order = ticket order) *)
+Definition SortedInv (s : st) : Prop := forall i j ci cj, (i < j)%nat ->
+  nth_error (cells s) i = Some ci -> nth_error (cells s) j = Some cj -> cown ci = cown cj -> (cseq ci < cseq cj)%nat.
+
+Lemma sorted_step : forall s t s', CellInv s -> SortedInv s -> step s t = Some s' -> SortedInv s'.
+Proof.
+  intros s t s' HC IH Hs i j ci cj Hij Hi Hj Ho. step_setup Hs s t. unfold install in Hi, Hj; simpl in Hi, Hj.
+  destruct (cell_origin _ _ _ _ _ _ Hst _ _ Hi) as [(c0 & E0 & Eo & Es)|(-> & Pi & Px & Eo & Es)];
+  destruct (cell_origin _ _ _ _ _ _ Hst _ _ Hj) as [(c1 & E1 & Eo1 & Es1)|(-> & Pi1 & Px1 & Eo1 & Es1)].
+  - rewrite <- Es, <- Es1. eapply IH; eauto. congruence.
+  - destruct (HC _ _ E0) as (th0 & H0 & Hx & Hle & Hid).
+    assert (cown c0 = t) by congruence. rewrite H in H0. rewrite Hth in H0. inversion H0; subst th0.
+    rewrite <- Es, Es1. destruct (Nat.eq_dec (cseq c0) (opi th)) as [E|E]; [exfalso; apply (Hid E); exact Pi1 | lia].
+  - exfalso. assert (j < length (cells s))%nat by (apply nth_error_Some; congruence). lia.
+  - lia.
+Qed.
+
+(* every execute() op that was started has its ticket *)
+Definition ExecInv (s : st) : Prop := forall t th i, nth_error (threads s) t = Some th ->
+  nth_error (prog th) i = Some OExec -> ((i < opi th)%nat \/ (i = opi th /\ tpc th <> Idle)) ->
+  exists k c, nth_error (cells s) k = Some c /\ cown c = t /\ cseq c = i.
+
+Lemma cell_persist : forall s t th s1 th' sp, step_thread s t th = Some (s1, th', sp) ->
+  forall k c, nth_error (cells s) k = Some c ->
+  exists c', nth_error (cells s1) k = Some c' /\ cown c' = cown c /\ cseq c' = cseq c.
+Proof.
+  intros s t th s1 th' sp Hst k c Hn.
+  step_cases Hst; simpl; eauto;
+    try (rewrite nth_error_upd_nth;
+         match goal with |- context [if ?b then _ else _] => destruct b eqn:Eb end;
+         [ apply Nat.eqb_eq in Eb; subst; rewrite Hn; simpl; eexists; split; [reflexivity | simpl; auto] | eauto ]).
+  exists c. split; [|auto]. rewrite nth_error_app1; [exact Hn | apply nth_error_Some; congruence].
+Qed.
+
+Lemma exec_step : forall s t s', ExecInv s -> step s t = Some s' -> ExecInv s'.
+Proof.
+  intros s t s' IH Hs t0 th0 i Hn Hx Hc. step_setup Hs s t.
+  assert (KEEP : forall tt thh, nth_error (threads s) tt = Some thh -> nth_error (prog thh) i = Some OExec ->
+                 ((i < opi thh)%nat \/ (i = opi thh /\ tpc thh <> Idle)) ->
+                 exists k c, nth_error (cells (install s1 t th' sp)) k = Some c /\ cown c = tt /\ cseq c = i).
+  { intros tt thh A B C. destruct (IH _ _ _ A B C) as (k & c & E & Eo & Es).
+    destruct (cell_persist _ _ _ _ _ _ Hst _ _ E) as (c' & E' & Eo' & Es'). exists k, c'. unfold install; simpl.
+    split; [exact E' | split; congruence]. }
+  destruct (install_threads _ _ _ _ _ _ Hn _ Hth1) as [[-> ->]|[[Hne Hold]|[Hin Hne]]].
+  - destruct (step_thread_progress _ _ _ _ _ _ Hst) as [Pp Po]. rewrite Pp in Hx.
+    destruct (Nat.eq_dec i (opi th)) as [Ei|Ei].
+    + (* the op the thread is at *)
+      destruct (tpc th) eqn:Epc;
+        try (apply (KEEP t th Hth Hx); right; split; [exact Ei | rewrite Epc; discriminate]).
+      (* Idle: this step takes the ticket *)
+      subst i. clear KEEP. step_cases Hst; try congruence.
+      exists (length (cells s)), {| cown := t; cseq := opi th; cpub := false; csig := false |}.
+      unfold install; simpl. split; [|split; reflexivity].
+      rewrite nth_error_app2 by lia. rewrite Nat.sub_diag. reflexivity.
+    + apply (KEEP t th Hth Hx). left.
+      destruct Po as [[Q1 Q2]|[Q1 [Q3 Q2]]]; rewrite Q1 in Hc; destruct Hc as [L|[E N]]; try lia.
+      exfalso; apply N; exact Q3.
+  - rewrite Hthr in Hold. eapply KEEP; eauto.
+  - destruct (spawned_threads _ _ _ _ _ _ Hst) as [->| ->]; simpl in Hin; [contradiction|].
+    destruct Hin as [<-|[]]. simpl in Hx. destruct i; discriminate.
+Qed.
+
+(* ---- all invariants together ---- *)
+Record AllInv (s : st) : Prop := {
+  a_own : OwnInv s; a_cov : CovInv s; a_unsig : UnsigInv s; a_cons : ConsInv s; a_cell : CellInv s;
+  a_sorted : SortedInv s; a_exec : ExecInv s
+}.
+
+Lemma all_init : forall c a f progs, (1 <= c)%nat -> AllInv (init c a f progs).
+Proof.
+  intros c a f progs Hc. constructor.
+  - apply own_init.
+  - apply cov_init; exact Hc.
+  - intros k c0 H; destruct k; discriminate.
+  - left; reflexivity.
+  - intros k c0 H; destruct k; discriminate.
+  - intros i j ci cj _ H; destruct i; discriminate.
+  - intros t th i H Hx Hc0. simpl in H. apply init_thread in H. destruct H as [P O]. rewrite P, O in Hc0.
+    destruct Hc0 as [L|[_ N]]; [lia | congruence].
+Qed.
+
+Lemma reach_all : forall c a f progs s, (1 <= c)%nat -> Reach c a f progs s -> AllInv s.
+Proof.
+  intros c a f progs s Hc HR.
+  apply (inv_reachable st step AllInv (init c a f progs)); auto.
+  - apply all_init; exact Hc.
+  - intros s0 t s' [A B C D E F G] Hs. constructor.
+    + eapply own_step; eauto.
+    + eapply cov_step; eauto.
+    + eapply unsig_step; eauto.
+    + eapply cons_step; eauto.
+    + eapply cell_step; eauto.
+    + eapply sorted_step; eauto.
+    + eapply exec_step; eauto.
+Qed.
+
+(* ---- exactly once, in order ---- *)
+Definition key (c : cell) : nat * nat := (cown c, cseq c).
+
+Lemma sorted_nodup : forall s, SortedInv s -> NoDup (map key (cells s)).
+Proof.
+  intros s HS. apply NoDup_nth_error. intros i j Hi E. rewrite map_length in Hi.
+  rewrite !nth_error_map in E.
+  destruct (nth_error (cells s) i) as [ci|] eqn:Ei; [|apply nth_error_None in Ei; lia].
+  destruct (nth_error (cells s) j) as [cj|] eqn:Ej; simpl in E; [|discriminate].
+  inversion E as [[Eo Es]].
+  destruct (Nat.lt_trichotomy i j) as [L|[L|L]]; [|exact L|].
+  - pose proof (HS _ _ _ _ L Ei Ej Eo). lia.
+  - pose proof (HS _ _ _ _ L Ej Ei (eq_sym Eo)). lia.
+Qed.
+
+Lemma nth_error_firstn_some : forall A (l : list A) n i x, nth_error (firstn n l) i = Some x -> nth_error l i = Some x.
+Proof.
+  induction l as [|y l IH]; intros [|n] [|i] x H; simpl in *; try discriminate; auto. eapply IH; eauto.
+Qed.
+
+Lemma nodup_app_l : forall A (a b : list A), NoDup (a ++ b) -> NoDup a.
+Proof.
+  induction a as [|x a IH]; intros b H; [constructor|]. simpl in H. inversion H; subst.
+  constructor; [intro Hin; apply H2; apply in_or_app; auto | eapply IH; eauto].
+Qed.
+
+Theorem eq_consumed_at_most_once : forall c a f progs s, (1 <= c)%nat -> Reach c a f progs s ->
+  NoDup (delivered s) /\
+  (forall t i, In (t, i) (delivered s) -> exists th, nth_error (threads s) t = Some th /\ nth_error (prog th) i = Some OExec).
+Proof.
+  intros c a f progs s Hc HR. pose proof (reach_all _ _ _ _ _ Hc HR) as [A B C D E F G]. split.
+  - unfold delivered. fold key. pose proof (sorted_nodup s F) as ND.
+    rewrite <- (firstn_skipn (ndel s) (cells s)) in ND. rewrite map_app in ND.
+    eapply nodup_app_l; eauto.
+  - intros t i Hin. unfold delivered in Hin. apply in_map_iff in Hin. destruct Hin as (c0 & Ek & Hin).
+    inversion Ek; subst. apply In_nth_error in Hin. destruct Hin as [k Hk]. apply nth_error_firstn_some in Hk.
+    destruct (E _ _ Hk) as (th & H0 & Hx & _). eauto.
+Qed.
+
+Theorem eq_producer_order : forall c a f progs s i j p x y, (1 <= c)%nat -> Reach c a f progs s ->
+  (i < j)%nat -> nth_error (delivered s) i = Some (p, x) -> nth_error (delivered s) j = Some (p, y) -> (x < y)%nat.
+Proof.
+  intros c a f progs s i j p x y Hc HR L Hi Hj. pose proof (reach_all _ _ _ _ _ Hc HR) as [A B C D E F G].
+  unfold delivered in *. rewrite nth_error_map in Hi, Hj.
+  destruct (nth_error (firstn (ndel s) (cells s)) i) as [ci|] eqn:Ei; simpl in Hi; [|discriminate].
+  destruct (nth_error (firstn (ndel s) (cells s)) j) as [cj|] eqn:Ej; simpl in Hj; [|discriminate].
+  inversion Hi; inversion Hj; subst.
+  apply nth_error_firstn_some in Ei. apply nth_error_firstn_some in Ej. eapply F; eauto; congruence.
+Qed.
+
+(* ---- join / the end of a run: proved parts ---- *)
+Lemma quiet_all_delivered : forall s, AllInv s -> events s = 0 -> stale s = false ->
+  (forall t th, nth_error (threads s) t = Some th -> in_flight th = false) ->
+  (length (cells s) <= ndel s)%nat.
+Proof.
+  intros s [A B C D E F G] Hev Hst Hq.
+  assert (Hnp : (length (cells s) <= npop s)%nat).
+  { destruct (nth_error (cells s) (npop s)) as [c0|] eqn:E0; [|apply nth_error_None; exact E0].
+    pose proof (c_cover _ B Hev Hst _ E0) as Hs. destruct (C _ _ E0 Hs) as (th & H0 & P).
+    specialize (Hq _ _ H0). unfold in_flight in Hq. destruct P as [P|P]; rewrite P in Hq; discriminate. }
+  destruct D as [D|(t1 & th1 & H1 & P1)]; [lia|].
+  exfalso. assert (O : is_owner th1 = true) by (unfold is_owner; rewrite P1; reflexivity).
+  destruct (own_pos_of_owner _ _ _ A H1 O). lia.
+Qed.
+
+Theorem eq_join_returns_after_partial : forall c a f progs s t th s', (1 <= c)%nat -> Reach c a f progs s ->
+  nth_error (threads s) t = Some th -> tpc th = Idle -> nth_error (prog th) (opi th) = Some OJoin ->
+  step s t = Some s' -> stale s = false ->
+  (forall t' th', nth_error (threads s) t' = Some th' -> in_flight th' = false) ->
+  (length (cells s) <= ndel s)%nat /\
+  exists th', nth_error (threads s') t = Some th' /\ results th' = results th ++ [RJoin 0].
+Proof.
+  intros c a f progs s t th s' Hc HR Hth Hpc Hop Hs Hst Hq. pose proof (reach_all _ _ _ _ _ Hc HR) as HA.
+  unfold step in Hs. rewrite Hth in Hs. unfold step_thread in Hs. rewrite Hpc, Hop, g_join in Hs.
+  destruct (events s =? 0) eqn:E; simpl in Hs; [|discriminate]. apply Z.eqb_eq in E.
+  pose proof (quiet_all_delivered s HA E Hst Hq) as L. split; [exact L|].
+  inversion Hs; subst. eexists. split; [eapply install_self; eauto|]. simpl.
+  unfold missing. rewrite skipn_all2 by exact L. reflexivity.
+Qed.
+
+Lemma all_done_thread : forall s t th, all_done s = true -> nth_error (threads s) t = Some th ->
+  tpc th = Idle /\ nth_error (prog th) (opi th) = None.
+Proof.
+  intros s t th H Hn. unfold all_done in H. rewrite forallb_forall in H. specialize (H th (nth_error_In _ _ Hn)).
+  unfold thread_done in H. destruct (tpc th); try discriminate. destruct (nth_error (prog th) (opi th)); [discriminate|auto].
+Qed.
+
+(* at the end of every run, unless the last reset of the counter was a refused launch, every item passed to execute()
+   has been delivered (exactly once by eq_consumed_at_most_once) *)
+Theorem eq_none_stranded_at_end : forall c a f progs s, (1 <= c)%nat -> Reach c a f progs s ->
+  all_done s = true -> stale s = false ->
+  events s = 0 /\ delivered s = map key (cells s) /\
+  (forall t th i, nth_error (threads s) t = Some th -> nth_error (prog th) i = Some OExec -> In (t, i) (delivered s)).
+Proof.
+  intros c a f progs s Hc HR Hd Hst. pose proof (reach_all _ _ _ _ _ Hc HR) as HA.
+  assert (Hev : events s = 0).
+  { destruct HA as [[A0 A1 A2] _ _ _ _ _ _]. destruct (Z.eq_dec (events s) 0) as [E|E]; [exact E|].
+    destruct (owners_exists (threads s)) as (t & th & H & Ho); [rewrite A2; lia|].
+    destruct (all_done_thread _ _ _ Hd H) as [P _]. unfold is_owner in Ho. rewrite P in Ho. discriminate. }
+  assert (Hq : forall t th, nth_error (threads s) t = Some th -> in_flight th = false).
+  { intros t th H. destruct (all_done_thread _ _ _ Hd H) as [P _]. unfold in_flight. rewrite P. reflexivity. }
+  pose proof (quiet_all_delivered s HA Hev Hst Hq) as L.
+  assert (Hdel : delivered s = map key (cells s)) by (unfold delivered; rewrite firstn_all2 by exact L; reflexivity).
+  split; [exact Hev | split; [exact Hdel|]].
+  intros t th i H Hx. rewrite Hdel. destruct (all_done_thread _ _ _ Hd H) as [P N].
+  apply nth_error_None in N. assert (i < length (prog th))%nat by (apply nth_error_Some; congruence).
+  destruct (a_exec _ HA _ _ _ H Hx) as (k & c0 & E & Eo & Es); [left; lia|].
+  apply in_map_iff. exists c0. split; [unfold key; congruence | eapply nth_error_In; eauto].
+Qed.
+
 (* ---- the full-strength statements are false of the faithful model: witness ---- *)
 Definition gap_progs : list (list op) := [[OExec; OJoin]; [OExec]].
 Definition gap_sched : list nat := [1; 0; 0; 0; 0; 2; 2; 2; 0]%nat.
 Definition gap_state : st := run st step (init 4 true [] gap_progs) gap_sched.
 
 Lemma gap_reach : Reach 4 true [] gap_progs gap_state.
-Proof. exists gap_sched. reflexivity. Qed.
+Proof. exists gap_sched. unfold gap_state. reflexivity. Qed.
 
 (* thread 1 holds ticket 0 unpublished; thread 0's item (ticket 1) is published, signalled, its execute() returned 0,
    the consumer launched for it has polled (nothing: ticket 0 not ready), reset the counter and exited *)
@@ -534,7 +871,7 @@ Theorem eq_join_returns_after_refuted : exists progs s th m,
   Reach 4 true [] progs s /\ nth_error (threads s) 0 = Some th /\ nth_error (prog th) 0 = Some OExec /\
   results th = [RExec 0; RJoin m] /\ m <> 0%nat.
 Proof.
-  exists gap_progs, gap_state. eexists. exists 1%nat.
+  exists gap_progs, gap_state, {| prog := [OExec; OJoin]; opi := 2; tpc := Idle; results := [RExec 0; RJoin 1] |}, 1%nat.
   split; [exact gap_reach | vm_compute; repeat split; try reflexivity; lia].
 Qed.
 
@@ -545,4 +882,4 @@ Definition resume_state : st := run st step (init 2 true [true] resume_progs) re
 Lemma resume_example : Reach 2 true [true] resume_progs resume_state /\ all_done resume_state = true /\
   stale resume_state = false /\ delivered resume_state = [(0, 0)]%nat /\
   (exists th, nth_error (threads resume_state) 0 = Some th /\ results th = [RExec (-1); RSignal 0; RJoin 0]).
-Proof. split; [exists resume_sched; reflexivity | vm_compute; repeat split; eauto]. Qed.
+Proof. split; [exists resume_sched; unfold resume_state; reflexivity | vm_compute; repeat split; eauto]. Qed.
